@@ -20,7 +20,7 @@ empty string, `~` for Python `None`.  One output line per input line; `bad-op` o
   s init | s addfile <date> | s addchild <date> <name> <isdir> | s mk <label> <hasTs> <date|~> <time|~> <ddate> <dtime>
         | s latest <label> <date|~> | s list <label|~> | s ls
   h <naxes> <ncol> <ts> <labels…>                         (see `hLine`)
-  r init | r rec <d> <v,v,…|-> | r attr <d> <k> <v> | r shutdown | r swap | r flush | r crash | r close | r file
+  r init | r rec <d> <v,v,…|-> | r attr <d> <k> <v> | r mut | r shutdown | r swap | r flush | r crash | r close | r file
 -/
 open QmiModel.C17
 
@@ -346,6 +346,8 @@ def stepLine (st : St) (line : String) : St × String :=
     let (r', o) := recAct st.rc .shutdown; ({ st with rc := r' }, if o == "not-enabled" then o else "ok")
   | ["r", "swap"] => let (r', o) := recAct st.rc .swap; ({ st with rc := r' }, o)
   | ["r", "flush"] => let (r', o) := recAct st.rc .flush; ({ st with rc := r' }, o)
+  | ["r", "mut"] => (st, showRec st.rc)   -- the client overwrites a buffer it had passed to record(): no recorder action
+  | ["r", "mut!"] => (st, "ok")            -- … while the writer is inside its critical section (intermediate state not compared)
   | ["r", "crash"] => let (r', o) := recAct st.rc .crash; ({ st with rc := r' }, o)
   | ["r", "close"] => (st, match closeResult st.rc.s with
       | some .ok => "ok"
